@@ -72,6 +72,8 @@ func (c cfg) xe() ring.DistributionParameters {
 		return ring.DiscreteGaussian{Sigma: 8, Bound: 12}
 	case "ternary-p0.5":
 		return ring.Ternary{P: 0.5}
+	case "ternary-hN/4": // fixed-Hamming-weight ternary error (the sparse sampling path, read-and-add included)
+		return ring.Ternary{H: max(1, (1<<c.LogN)/4)}
 	}
 	return ring.DiscreteGaussian{Sigma: 3.2, Bound: 19.2}
 }
@@ -85,7 +87,7 @@ func (c cfg) params() (rlwe.Parameters, error) {
 }
 
 var xsKinds = []string{"ternary-p0.5", "ternary-p2/3", "ternary-p1/3", "ternary-h1", "ternary-h32", "ternary-hN/2", "ternary-hN", "gauss3.2", "gauss3.2b5"}
-var xeKinds = []string{"gauss3.2", "gauss3.2", "gauss0.5", "gauss40", "ternary-p0.5", "gauss3.2b6.4", "gauss8b12"}
+var xeKinds = []string{"gauss3.2", "gauss3.2", "gauss0.5", "gauss40", "ternary-p0.5", "gauss3.2b6.4", "gauss8b12", "ternary-hN/4"}
 
 func cases(tier string, seed int64) []eng.Case {
 	r := eng.NewRand("c03-cases", seed)
